@@ -47,5 +47,17 @@ func (s *Script) Read(p []byte) (int, error) {
 
 func (s *Script) Close() error { return nil }
 
+// Steal removes and returns the next unread chunk (nil if none): bytes that reach the
+// program through another read than the script's own (type-ahead sharing a read with a
+// terminal reply).
+func (s *Script) Steal() []byte {
+	if s.pos < len(s.Chunks) {
+		c := s.Chunks[s.pos]
+		s.pos++
+		return c
+	}
+	return nil
+}
+
 // Remaining reports how many chunks have not been read yet.
 func (s *Script) Remaining() int { return len(s.Chunks) - s.pos }
